@@ -167,6 +167,17 @@ func opWsRecover() error {
 			// what the subscriber has received so far
 			if ev.Told {
 				// after a failed recovery the subscriber has been told to reload: only order and uniqueness are owed from there on
+				// (a publication made while it is on line must still have ARRIVED before the behaviour goes on: the
+				// subscriber's position decides what the next reconnection recovers)
+				if ev.Ev == "publish" && ev.Online {
+					deadline := time.Now().Add(wait)
+					for time.Now().Before(deadline) {
+						if g := snapshot(); len(g) > 0 && g[len(g)-1] == ev.N {
+							break
+						}
+						time.Sleep(200 * time.Microsecond)
+					}
+				}
 				time.Sleep(2 * time.Millisecond)
 				got := snapshot()
 				for i := 1; i < len(got); i++ {
